@@ -1,4 +1,4 @@
 SPECIFICATION Spec
-CONSTANTS MaxLam = 2 NumPatterns = 3 MaxSubsets = 3 FullX = TRUE
+CONSTANTS MaxLam = 2 NumPatterns = 3 MaxSubsets = 3 FullX = FALSE
 INVARIANTS Inv1 Inv2 Inv3 Inv4 Inv5 Inv6
 CHECK_DEADLOCK FALSE
